@@ -197,7 +197,14 @@ def fold_error(ctx):
     ok = isinstance(it, ast.Call) and callee_qual(p, u, it) == 'grouping.target_iter' and is_name(it.args[0], u.params[1]) \
         and is_name(it.args[1], u.params[2])
     ctx.ob(ok, u, 'the fold runs over the registered iteration of the (sub)target: %s' % norm(it))
-    ctx.ob(isinstance(fn.ast, ast.Return) and fn.ast.value is folds[0], u, 'the fold result is returned unchanged')
+    okret = isinstance(fn.ast, ast.Return) and fn.ast.value is folds[0]
+    if not okret and isinstance(fn.ast, ast.Assign) and is_name(fn.ast.targets[0]) and fn.ast.value is folds[0]:
+        # ``ret = self._fold(..)`` inside the try, ``return ret`` after it
+        rv_ = fn.ast.targets[0].id
+        after = [n for n in cfg.nodes if n.kind == 'stmt' and isinstance(n.ast, ast.Return) and is_name(n.ast.value, rv_)]
+        okret = bool(after) and all([d for d, _ in cfg.reaching_defs(n, rv_)] == [fn] for n in after) \
+            and cfg.find_path(fn, {cfg.exit}, avoid=set(after), labels=lambda l: l != 'exc') is None
+    ctx.ob(okret, u, 'the fold result is returned unchanged')
     c = ctx.cls('reduction.FoldError')
     ctx.ob(c.is_subclass_of('GlomError'), c, 'FoldError is a GlomError')
     ctx.floor(5)
